@@ -40,6 +40,7 @@ type c03Fl struct {
 	AsPrefix  int32  `json:"as_prefix"`  // >= 0: replace the static bytes by those of this prefix id (tag stays genuine)
 	Valid     bool   `json:"valid"`      // is the client's registration valid (true) or only tracked
 	NoReg     bool   `json:"no_reg"`     // the client never registered on this phantom
+	Key       int    `json:"key"`        // station key the client obfuscates to
 	TagOf     string `json:"tag_of"`     // "min": the flight is prefix_id's static bytes + the obfuscated identifier of a *min* registration
 }
 
@@ -231,6 +232,8 @@ func (c *c03Conn) SetReadDeadline(t time.Time) error  { c.setDL(t); return nil }
 func (c *c03Conn) SetWriteDeadline(t time.Time) error { return nil }
 func (c *c03Conn) LocalAddr() net.Addr                { return &net.TCPAddr{IP: net.IPv4(192, 0, 2, 1), Port: 443} }
 func (c *c03Conn) RemoteAddr() net.Addr               { return vfClientAddr }
+func (c *c03Conn) vfLogRelayStart()         {}
+func (c *c03Conn) vfLogRelayRead(b []byte) {}
 func (c *c03Conn) vfLogCall(v vfCall) {
 	c.mu.Lock()
 	c.res.Calls = append(c.res.Calls, v)
@@ -256,7 +259,7 @@ func c03Resolve(s *vfStation, cs *c03Case, phantom net.IP, res *c03Res) ([]byte,
 			f := p.Fl
 			secret := make([]byte, 32)
 			rand.Read(secret)
-			writes, params, err := vfFlight(s, f.Transport, f.PrefixID, 0, false, secret)
+			writes, params, err := vfFlight(s, f.Transport, f.PrefixID, 0, false, secret, f.Key)
 			if err != nil {
 				return nil, err
 			}
@@ -273,14 +276,14 @@ func c03Resolve(s *vfStation, cs *c03Case, phantom net.IP, res *c03Res) ([]byte,
 				// a holder of a min registration's secret wraps its identifier as a prefix flight
 				msec := make([]byte, 32)
 				rand.Read(msec)
-				mw, mparams, err := vfFlight(s, "min", 0, 0, false, msec)
+				mw, mparams, err := vfFlight(s, "min", 0, 0, false, msec, 0)
 				if err != nil {
 					return nil, err
 				}
 				if _, err := s.newReg(vfTT("min"), mparams, msec, phantom, "127.0.0.1:9", true); err != nil {
 					return nil, err
 				}
-				tag, err := s.prefixT.TagObfuscator.Obfuscate(mw[0], s.pub[:])
+				tag, err := s.prefixT.TagObfuscator.Obfuscate(mw[0], s.pubs[f.Key%len(s.pubs)][:])
 				if err != nil {
 					return nil, err
 				}
